@@ -134,12 +134,13 @@ PROPS['C04'] = {
                   'builder::SourceMapBuilder::add_raw', 'builder::SourceMapBuilder::into_sourcemap'],
     'harnesses': [
         H('c04_glb_n%d' % n, 'utils', 'quick' if n <= 6 else 'thorough', 600, 8,
-          'every sorted slice of exactly %d keys (u32,u32) x every query key' % n, nocover=(n == 0))
+          'every sorted slice of exactly %d keys (u32,u32) x every query key' % n, nocover=(n == 0),
+          allow_uncovered=['duplicate', 'after the last key'] if n == 1 else None)
         for n in (0, 1, 2, 3, 4, 5, 6, 7, 8, 12)
     ] + [
         H('c04_lookup_n%d' % n, 'types', 'quick' if n <= 4 else 'thorough', 900, 8,
           'every sorted map of exactly %d tokens (full u32 fields, no range tokens) x every (line, col) incl. u32::MAX' % n,
-          nocover=(n == 0))
+          nocover=(n == 0), allow_uncovered=['duplicates', 'later line'] if n == 1 else None)
         for n in (0, 1, 2, 3, 4, 5, 6, 8)
     ] + [
         H('c04_new_sorted_n%d' % n, 'types', 'quick' if n <= 4 else 'thorough', 900, 8,
@@ -240,4 +241,63 @@ PROPS['C03'] = {
                     'c03_struct_*: encoder::encode_vlq_diff replaced by a recorder stub; c03_diff_full decides the replaced function'],
     'trusted': [S1],
     'outside': ['the JSON text itself (serde)', 'to_data_url', 'more than 3 tokens', 'source/name arrays longer than 2'],
+}
+
+SV_STUBS = 'S1 (Vec::new/Vec::push fixed capacity 48, no reallocation), S3 (memchr_aligned byte loop)'
+
+PROPS['C15'] = {
+    'title': 'SourceView lines and UTF-16 slices match the text exactly, in any access order',
+    'functions': ['sourceview::SourceView::new', 'SourceView::get_line', 'SourceView::line_count', 'SourceView::lines / Lines::next',
+                  'SourceView::get_line_slice', 'SourceView::source'],
+    'harnesses': [
+        H('c15_line_n%d' % n, 'sourceview', 'quick' if n <= 4 else 'thorough', 1200, 10,
+          'every text of exactly %d bytes over {a, b, \\n, \\r}, any line index (u32), then line_count' % n, nocover=(n < 2))
+        for n in (0, 1, 2, 3, 4, 5, 6, 7)
+    ] + [
+        H('c15_order_n3', 'sourceview', 'quick', 1800, 12, 'every 3-byte text, any 3 successive requests (get_line(any) or line_count) on one view', nocover=True),
+        H('c15_order_n4', 'sourceview', 'thorough', 2400, 12, 'every 4-byte text, any 3 successive requests', nocover=True),
+        H('c15_order_n5', 'sourceview', 'thorough', 3600, 14, 'every 5-byte text, any 3 successive requests', nocover=True),
+        H('c15_lines_iter_n3', 'sourceview', 'thorough', 2400, 12, 'every 3-byte text: lines() after an optional earlier request'),
+        H('c15_lines_iter_n4', 'sourceview', 'thorough', 3600, 14, 'every 4-byte text: lines() after an optional earlier request'),
+        H('c15_slice_ascii_n4', 'sourceview', 'quick', 900, 10, 'any 4 lower-case letters, any col, span < 2^31'),
+        H('c15_slice_big', 'sourceview', 'quick', 900, 10, 'line "xy", any col and span (full u32)'),
+    ] + [
+        H('c15_slice_wide_%s' % k, 'sourceview', 'quick' if k in ('200', '120') else 'thorough', 1500, 12,
+          'line of 3 chars of kinds %s (0 = a, 1 = e-acute 2 bytes/1 unit, 2 = U+1F44C 4 bytes/2 units), any col, span < 8' % k)
+        for k in ('200', '020', '002', '120', '212', '222', '101', '021')
+    ],
+    'assumptions': [SV_STUBS, 'texts over a 4-letter alphabet {a, b, LF, CR} (all terminator placements; letters stand for any non-terminator byte)'],
+    'trusted': [SV_STUBS],
+    'outside': ['texts longer than 7 bytes', 'multi-byte characters inside get_line (it works on bytes and only looks for LF/CR)',
+                'more than 3 successive requests', 'slices of lines other than line 0'],
+}
+
+PROPS['C16'] = {
+    'title': 'A SourceView shared between threads answers as if accessed by one',
+    'functions': ['sourceview::SourceView::get_line (with the sourcemap_verif yield points)', 'SourceView::line_count',
+                  'sourceview::verif_hooks::yield_point'],
+    'harnesses': [
+        H('c16_n%d' % n, 'sourceview', 'quick' if n <= 2 else 'thorough', 1800, 12,
+          'every %d-byte text over {a, b, LF, CR}; optional earlier call; outer get_line(any) with a solver-chosen complete nested '
+          'get_line(any) at each yield point where the lock is free; later get_line(any) + line_count' % n,
+          cfg='sourcemap_verif', allow_uncovered=['nested call ran'])
+        for n in (0, 1, 2, 3, 4)
+    ] + [
+        H('c16_count_n%d' % n, 'sourceview', 'quick' if n <= 2 else 'thorough', 1800, 12,
+          'same with line_count() as the outer call, %d-byte texts' % n, cfg='sourcemap_verif', allow_uncovered=['nested call ran'])
+        for n in (2, 3)
+    ] + [
+        H('c16_depth2_n%d' % n, 'sourceview', 'thorough', 3600, 14,
+          'nested calls may themselves be interrupted once (depth 2), %d-byte texts' % n, cfg='sourcemap_verif',
+          allow_uncovered=['nested call ran'])
+        for n in (2, 3)
+    ],
+    'assumptions': [
+        'sequentialisation argument (DESIGN.md C16): all mutation of the view happens under its mutex, so between the atomic blocks '
+        'of one call other threads can only run complete atomic blocks; their cumulative effect equals that of complete nested calls',
+        'hook commit 210a631 (--cfg sourcemap_verif): yield points after the cache probe and after the finished check',
+        SV_STUBS],
+    'trusted': [SV_STUBS, 'std::sync::Mutex as modelled by Kani (single-threaded lock/try_lock)'],
+    'outside': ['memory-model effects of Ordering::Relaxed (the argument uses only the mutex happens-before)', 'real-thread stress',
+                'interleavings inside a critical section (excluded by the mutex)', 'deadlock freedom beyond: no call blocks on a lock it holds'],
 }
